@@ -258,6 +258,22 @@ def r19_4(run, model):
                 if "TArray" in pt:
                     ok = "len" in bt
                     run.ob("R19.4", f"{name}|TArray encodes its length", ok, site(rel, arm["sp"]), "array name contains the length" if ok else "length missing")
+                if "TFunc" in pt and "TTuple" not in pt:
+                    # the parameter list is variadic too: its end must be visible in the name - a count, a marker for the empty list, or
+                    # a separator word between parameters and result
+                    lits = [x["value"] for x in S.walk(arm["body"]) if x["k"] == "Lit" and x.get("lit") == "Str"]
+                    for mc in S.walk(arm["body"]):
+                        if mc["k"] == "Macro" and mc.get("args") is None:
+                            lits += re.findall(r'"([^"]*)"', mc.get("tokens", ""))
+                    words = []
+                    for i_, l_ in enumerate(lits):
+                        rest = re.sub(r"^[A-Za-z0-9]+", "", l_) if i_ == 0 else l_
+                        if re.search(r"[A-Za-z]", re.sub(r"\{[^}]*\}", "", rest)):
+                            words.append(l_)
+                    ok = ".len()" in bt or "is_empty()" in bt and bool(words) or bool(words)
+                    run.ob("R19.4", f"{name}|TFunc delimits its parameter list", ok, site(rel, arm["sp"]),
+                           f"count: {'.len()' in bt}; marker / separator literals: {words or 'none'}",
+                           witness="() -> (A) -> B and (() -> A) -> B are both named TFunc_TFunc_A_B: a tuple type holding either is declared twice")
 
 
 def r19_5(run, model):
@@ -432,6 +448,9 @@ def run(run, model):
     run.try_rule(r19_8, model)
     run.try_rule(r19_10, model)
     run.try_rule(r19_12, model)
+    # two temporaries of one Go block never share a name, also when the stages count separately (shared with C14 R14.4)
+    from rules import c14 as _c14
+    run.try_rule(_c14.r14_4, model)
     run.try_rule(r19_13, model)
     run.try_rule(r19_14, model)
     from rules import c17 as _c17
